@@ -4,7 +4,7 @@ from .progfam import *
 
 def run(tier, seed):
     return run_prog_property(
-        "C05", ["witness", "compile"], tier, seed,
+        "C05", ["witness", "compile", "shared"], tier, seed, verdict_fams=("shared",),
         rule="MC_Witness.tla: programs with 0..8 witnesses whose declared types rotate through classes of layout-equal but "
              "different types ({u16,(u8,u8),[u8;2],((u4,u4),u8)}, {bool,u1,Either<(),()>,Option<()>}, {u8,(u4,u4),[u4;2]}, "
              "{Option<u8>,Either<(),u8>}); every witness is compared with its own literal. Per program the maps: exact, exact + "
